@@ -97,7 +97,9 @@ func (m *model) ruleWorker(s *report.Sink) {
 	s.Check(inv != nil, "S13", "worker|run dominated by !invalid", m.ipos(rc.in), "an invalidated job is not started", "job.run is reachable for an invalidated job: tasks downstream of a failure run under ContinueOnError")
 	s.Check(len(rc.cc.Args) == 1 && m.isFieldOf(rc.cc.Args[0], jobKey, m.sjCtx), "S13", "worker|run receives the job's own ctx", m.ipos(rc.in), "run(j.ctx)", "job.run is not called with the context given to Enqueue")
 	// the ctx gate must not have been narrowed: the only condition on running is (ctx.Err()==nil && !invalid)
-	s.Check(len(conds) == 2 || ctxOK == nil || inv == nil, "S13", "worker|no further condition on running a job", m.ipos(rc.in), "a valid job with a live context always runs", "job.run is subject to a further condition ("+atomStrings(conds)+"): some runnable jobs are reported finished without having run")
+	iterReg := func(b *ssa.BasicBlock) bool { return body.Dominates(b) && b != m.wLoopHdr }
+	exact := ctxOK == nil || inv == nil || (len(conds) == 2 && (m.alwaysFrom(inv, rc.in, iterReg) || m.alwaysFrom(ctxOK, rc.in, iterReg)))
+	s.Check(exact, "S13", "worker|no further condition on running a job", m.ipos(rc.in), "a valid job with a live context always runs", "job.run is subject to a further condition ("+atomStrings(conds)+"): some runnable jobs are reported finished without having run")
 
 	// S14: sends on the result channel in the worker proper
 	var sends []*ssa.Send
